@@ -52,6 +52,7 @@ fn pair_case(rep: &Report, wn: &str, w: &[u8], w2n: &str, w2: &[u8], salt: &[u8;
 pub fn run(rep: &'static Report) {
     let seed = rep.seed;
     rep.set_rule("E-ENV in tiny scope with the password-mode AAD (magic): every read partition, bounded write partitions, both loops, plus mismatched key/AAD pairs; E-GRID through pass_encrypt/pass_decrypt: all ordered password pairs over the 12-word alphabet x salts, and lengths x bounded short-I/O schedules. distinct non-trivial = distinct ciphertext streams round-tripped + distinct (password, other password, salt) triples");
+    rep.rule_add("CLI password pairs and round trips, the latter also with KESTREL_NEW_PASSWORD holding another password.");
     rep.assume("password/plaintext values from fixed alphabets; scrypt cost bounds the public-API part (counted in evidence)");
     tiny_scope(rep, &r::PASS_MAGIC, "C02");
 
